@@ -113,6 +113,8 @@ impl FsDir {
                         }
                     }
                     Err(ref e) if e.kind() == ErrorKind::NotFound => {}
+                    // `<path>.gz` can be too long a name when `<path>` itself is not.
+                    Err(ref e) if e.raw_os_error() == Some(libc::ENAMETOOLONG) => {}
                     Err(e) => return Err(e),
                 };
                 buf.truncate(path_len);
